@@ -300,5 +300,66 @@ pub fn strings() -> Vec<String> {
         .map(|s| s.to_string()),
     );
     v.push("]".repeat(4096));
+    // many unclosed tag-like sequences (nothing a CDATA section cannot carry)
+    v.push("<br>".repeat(300));
+    v.push("<a ".repeat(400));
+    v.push("<x><y>".repeat(150) + "</y>");
     v
+}
+
+/// Prototype built from attribute groups. `coords`: 0 cartesian, 1 spherical, 2 both.
+/// mask bits: 0 cartesian state, 1 spherical state, 2 colour, 3 colour flag, 4 intensity,
+/// 5 intensity flag, 6 row+column, 7 return count+index, 8 time stamp, 9 time stamp flag
+pub const N_GROUP_BITS: usize = 10;
+pub fn group_proto(coords: usize, mask: usize) -> Vec<Rec> {
+    let st = |n: &str, max: i64| rec(n, Ty::Int { min: 0, max });
+    let mut p = Vec::new();
+    if coords != 1 {
+        p.extend(xyz(F32));
+        if mask & 1 != 0 {
+            p.push(st("cartesianInvalidState", 2));
+        }
+    }
+    if coords != 0 {
+        p.push(rec("sphericalRange", F64));
+        p.push(rec("sphericalAzimuth", F64));
+        p.push(rec("sphericalElevation", F32));
+        if mask & 2 != 0 {
+            p.push(st("sphericalInvalidState", 2));
+        }
+    }
+    if mask & 4 != 0 {
+        p.push(rec("colorRed", Ty::Int { min: 0, max: 255 }));
+        p.push(rec("colorGreen", Ty::Int { min: 0, max: 1023 }));
+        p.push(rec("colorBlue", Ty::F32 { min: Some(0.0), max: Some(1.0) }));
+        if mask & 8 != 0 {
+            p.push(st("isColorInvalid", 1));
+        }
+    }
+    if mask & 16 != 0 {
+        p.push(rec("intensity", Ty::Scaled { min: 0, max: 4095, scale: 0.25, offset: 0.0 }));
+        if mask & 32 != 0 {
+            p.push(st("isIntensityInvalid", 1));
+        }
+    }
+    if mask & 64 != 0 {
+        p.push(rec("rowIndex", Ty::Int { min: 0, max: 4000 }));
+        p.push(rec("columnIndex", Ty::Int { min: -8, max: 8 }));
+    }
+    if mask & 128 != 0 {
+        p.push(rec("returnCount", Ty::Int { min: 1, max: 5 }));
+        p.push(rec("returnIndex", Ty::Int { min: 0, max: 4 }));
+    }
+    if mask & 256 != 0 {
+        p.push(rec("timeStamp", F64));
+        if mask & 512 != 0 {
+            p.push(st("isTimeStampInvalid", 1));
+        }
+    }
+    p
+}
+/// is the mask meaningful (flags need their base attribute, states their coordinates)?
+pub fn group_mask_valid(coords: usize, mask: usize) -> bool {
+    let dep = |flag: usize, base: usize| mask & flag == 0 || mask & base != 0;
+    dep(8, 4) && dep(32, 16) && dep(512, 256) && (mask & 1 == 0 || coords != 1) && (mask & 2 == 0 || coords != 0)
 }
